@@ -46,6 +46,8 @@ STRENGTHENED = {
     'C32-2': 'missed at first (single-address peer); the peer is now certified for two addresses and half of the cases dial the second one.',
     'C29': 'missed at first (the window between the pending-handshake lookup and its lock is too narrow for free scheduling); a yield point was added there (hook commit 429c36f) and a directed script forces time-out + re-allocation inside it.',
     'C44-2': 'missed at first (every generated handshake was accepted); a third of the generated handshakes are now built to be refused (index collision, older than the held tunnel, replayed packet).',
+    'C04-2': 'missed at first (random high-S values almost never fall in the band (n/2, 2^255)); a boundary unit drives SignWith with callbacks returning chosen s values around n/2, every power of two, 2^255 and n.',
+    'C02-2': 'missed at first; field tampers now include moving the boundary between the adjacent public-key and signature fields (same concatenation, different fields).',
     'C47': 'missed at first (short inputs were only presented as len==cap slices); short inputs at the front of a larger stale buffer were added.',
 }
 
